@@ -10,10 +10,10 @@ Proof. exact one_generation. Qed.
 Print Assumptions C11_tables_from_one_generation.
 
 (* The code follows the protocol: facts REGENERATED from /repo's source on every run (gen/main.go -> Gen/RefreshFacts.v).
-   Every write of a published table is inside mutex.Lock, every read of one by ExecuteQuery is inside mutex.RLock, and there
-   are such writes and reads.  A change that moves one outside the lock makes this theorem fail to check. *)
+   Every write of a published table is inside mutex.Lock, every read of one - by ExecuteQuery or by any other method, such
+   as the Schema() accessor gqlgen validates against - is inside mutex.RLock, and there are such writes and reads.  A change that moves one outside the lock makes this theorem fail to check. *)
 Theorem C11_source_follows_protocol :
-  forallb snd table_writes = true /\ forallb snd table_reads_in_execute = true /\
+  forallb snd table_writes = true /\ forallb snd table_reads_in_execute = true /\ forallb snd table_reads_elsewhere = true /\
   List.length table_writes = 4 /\ 4 <= List.length table_reads_in_execute.
 Proof. vm_compute. repeat split; try reflexivity; repeat constructor. Qed.
 Print Assumptions C11_source_follows_protocol.
@@ -21,12 +21,11 @@ Print Assumptions C11_source_follows_protocol.
 (* What the lock does NOT cover (the property's "unguarded state"): the service map is replaced outside the lock, and the
    model shows a query that reads tables of generation 0 together with the service map of generation 1.  plan.go:301 routes
    root fields by iterating that map, so during UpdateServiceList's poll a root field of a removed service is silently left
-   out (known finding KF-service-list-window); the Schema() accessor reads MergedSchema without the lock. *)
+   out (known finding KF-service-list-window). *)
 Theorem C11_service_map_outside_lock_refuted :
   existsb (fun w => negb (snd w)) service_map_writes = true /\
-  existsb (fun w => negb (snd w)) table_reads_elsewhere = true /\
   exists ls s, run init ls = Some s /\ q_tabs (qget s 7) = [0; 0] /\ q_svc (qget s 7) = [1].
-Proof. split; [vm_compute; reflexivity|]. split; [vm_compute; reflexivity|]. exact service_map_refuted. Qed.
+Proof. split; [vm_compute; reflexivity|]. exact service_map_refuted. Qed.
 Print Assumptions C11_service_map_outside_lock_refuted.
 
 Example C11_refresh_example :
